@@ -393,6 +393,8 @@ func runC05(c *Ctx) {
 	c.optionPlumbing("R05.5")
 
 	// ---- R05.7
+	c.rule("R05.8", "during an outage every accepted request is answered: the accept arm is total for calls and notifications, and the connection-unusable path answers with the temporary error")
+	c.acceptArmRule("R05.8")
 	c.rule("R05.7", "every completion delivered to an id-bearing call carries that call's id")
 	c.completionIDs("R05.7")
 
